@@ -3,6 +3,8 @@ package main
 import (
 	"encoding/json"
 	"fmt"
+	"math"
+	"strconv"
 	"strings"
 
 	simdjson "github.com/minio/simdjson-go"
@@ -28,7 +30,30 @@ var editSeeds = []seedDoc{
 	{"chain", `{"only":{"deep":{"deeper":[null,{"x":"y"}]}}}`, false, false},
 	{"deserialized-mixed", `{"a":1,"b":"x","c":[1,2,3],"d":{"e":true,"f":null}}`, false, true},
 	{"deserialized-numbers-only", `[1,2.5,[3],{"n":4}]`, false, true},
+	// equal strings (values and keys) share their bytes after a serialize round trip; each is
+	// long enough for every replacement value to fit into it
+	{"deserialized-duplicate-strings", `{"europe-west-region-1-zone-a-rack-0042-slot-7":"europe-west-region-1-zone-a-rack-0042-slot-7","b":["europe-west-region-1-zone-a-rack-0042-slot-7","b","zz"],"zz":"b"}`, false, true},
 }
+
+// lookalikeSeeds: numbers whose 64-bit value word, read as a tape entry, looks like a tag
+// (top byte 'N' = NOP, and '{', '[', '"', '}'), each directly in front
+// of a member that edits and deletions address: code that inspects the word before a position
+// cannot tell them from tags.
+func lookalikeSeeds() []seedDoc {
+	num := func(t byte, float bool, k int) string {
+		if float {
+			return strconv.FormatFloat(math.Float64frombits(uint64(t)<<56|0x0010000000000001), 'g', -1, 64)
+		}
+		return strconv.FormatUint(uint64(t)<<56|uint64(5+k), 10)
+	}
+	return []seedDoc{
+		{"lookalike-nop-object", fmt.Sprintf(`{"a":%s,"b":0,"c":%s,"d":"v","e":1}`, num('N', true, 0), num('N', false, 1)), false, false},
+		{"lookalike-nop-array", fmt.Sprintf(`[%s,0,%s,"v",[%s,1]]`, num('N', false, 0), num('N', true, 1), num('N', true, 2)), false, false},
+		{"lookalike-tags-object", fmt.Sprintf(`{"a":%s,"b":0,"c":%s,"d":{"x":%s,"y":2},"e":%s}`, num('{', true, 0), num('[', false, 1), num('"', true, 2), num('}', false, 3)), false, false},
+	}
+}
+
+func init() { editSeeds = append(editSeeds, lookalikeSeeds()...) }
 
 type histNode struct {
 	pj    *simdjson.ParsedJson
